@@ -42,9 +42,9 @@ func gluonChildren(n *gmime.Node) []*gmime.Node {
 	return n.Children
 }
 
-// gluonResolve walks a part path the way rfc822 (*Section).Part does. belowChildless: the walk reached a section
-// without children while numbers were left (Part returns that section; correct only for the lone "1" of a
-// non-multipart message).
+// gluonResolve walks a part path the way rfc822 (*Section).Part does on the pinned tree. belowChildless: the walk
+// reached a section without children while numbers were left (Part returns that section; correct only for the lone "1"
+// of a non-multipart message).
 func gluonResolve(root *gmime.Node, path []int) (n *gmime.Node, belowChildless bool) {
 	cur := root
 
@@ -67,6 +67,44 @@ func gluonResolve(root *gmime.Node, path []int) (n *gmime.Node, belowChildless b
 	}
 
 	return cur, false
+}
+
+// collapsedResolve is RFC 3501's numbering except that a message/rfc822 entity takes over the parts of the multipart
+// embedded in it (the shape of the listed finding C12-embedded-multipart-as-multipart, and nothing else).
+func collapsedResolve(root *gmime.Node, path []int) *gmime.Node {
+	cur, isMessage := root, true
+
+	for len(path) > 0 {
+		if ch := gluonChildren(cur); len(ch) > 0 {
+			if path[0] < 1 || path[0] > len(ch) {
+				return nil
+			}
+
+			cur, isMessage, path = ch[path[0]-1], false, path[1:]
+
+			continue
+		}
+
+		if isMessage {
+			// a non-multipart message has the part 1 only: itself, seen as an entity
+			if path[0] != 1 {
+				return nil
+			}
+
+			isMessage, path = false, path[1:]
+
+			continue
+		}
+
+		// below an entity without parts: only inside a message/rfc822
+		if cur.Kind != gmime.Message {
+			return nil
+		}
+
+		cur, isMessage = cur.Embedded, true
+	}
+
+	return cur
 }
 
 // steer tells whether an item lies in the region of a listed known finding (it is then not sent; the case is counted
@@ -96,13 +134,12 @@ func steer(m *msg, s spec) (bool, string) {
 		return false, ""
 	}
 
-	g, below := gluonResolve(root, s.path)
+	if collapsedResolve(root, s.path) != root.Section(s.path) && kf.Listed(kfEmbeddedMultipart) {
+		return true, kfEmbeddedMultipart
+	}
 
-	switch {
-	case below:
-		return kf.Listed(kfBelowChildless), kfBelowChildless
-	case g != root.Section(s.path):
-		return kf.Listed(kfEmbeddedMultipart), kfEmbeddedMultipart
+	if _, below := gluonResolve(root, s.path); below && kf.Listed(kfBelowChildless) {
+		return true, kfBelowChildless
 	}
 
 	return false, ""
